@@ -112,7 +112,10 @@ def main():
                 inconclusive.append(f"{h.name}: a table row outside the supplied set was requested")
                 continue
             real = [f for f in r.failed_checks if f["status"] == "FAILURE"]
-            own = [f for f in real if "/repo/" not in f["location"] and "repo/src" not in f["location"]
+            # a failure is the harness's own only when it is an arithmetic/bounds check located in the
+            # harness crate's sources (printed as src/...); panics inside std reached from /repo code
+            # (e.g. an overflow in next_power_of_two) are candidate violations and go through replay
+            own = [f for f in real if f["location"].startswith("src/")
                    and ("attempt to" in f["description"] or "index out of bounds" in f["description"] or "dereference failure" in f["description"])]
             if own and len(own) == len(real):
                 inconclusive.append(f"{h.name}: the harness itself misbehaves ({own[0]['description']} at {own[0]['location']})")
